@@ -228,7 +228,8 @@ Proof.
   unfold loco_set_cur_pwr_max_out in Hlim.
   apply bind_ok in Hlim. destruct Hlim as (t1 & Ht1 & Hlim).
   apply bind_ok in Hlim. destruct Hlim as (u & Hassert & Hlim). inversion Hlim; subst l1; clear Hlim.
-  unfold loco_solve in Hsol.
+  unfold loco_solve in Hsol. cbv zeta in Hsol.
+  apply bind_ok in Hsol; destruct Hsol as ([] & _ & Hsol).
   cbn [lc_state lc_type loco_with lc_assert_limits lc_pwr_aux_offset
     lc_pwr_aux_traction_coeff loco_set_pwr_aux ls_pwr_aux ls_energy_aux ls_energy_out ls_pwr_out ls_i] in *.
   apply bind_ok in Hsol. destruct Hsol as (t2 & Ht2 & Hsol). inversion Hsol; subst l'; clear Hsol.
